@@ -593,7 +593,7 @@ def oracle(line, ans, rng=None, want=None):
 
 
 def kind_of(w):
-    m = re.search(r": (BOTTOM|VALUE|NULL|NONNULL|SITES|TAGS|ENTAILS) ", w)
+    m = re.search(r": (BOTTOM|VALUE|NULL|NONNULL|SITES|TAGS|ENTAILS|CRASH) ", w)
     return m.group(1) if m else "?"
 
 
